@@ -1233,6 +1233,23 @@ def configuration_leg(chk, repo, all_sources):
     return len(table)
 
 
+# ---- the compiled text of the header vs the compiled text of the sources (checks/c20_decl.py) and start-up code whose
+#      execution depends on the link (checks/c20_init.py) ------------------------------------------------------------
+def declarations_leg(chk, repo):
+    from checks import c20_decl
+    feats = feature_macros(repo)
+    have_net = vlib.sh('pkg-config --exists Qt5Network')[0] == 0
+    combined = [m for m in ('QTLOGGER_SYSLOG', 'QTLOGGER_DEBUG', 'QTLOGGER_NO_THREAD', 'QTLOGGER_VERIF') if m in feats or m == 'QTLOGGER_VERIF']
+    combined += ['QTLOGGER_NETWORK'] if (have_net and 'QTLOGGER_NETWORK' in feats) else []
+    configs = [[], combined] + [[m] for m in feats if [m] != combined]
+    return c20_decl.declarations_leg(chk, repo, configs, qt_cflags())
+
+
+def initialisers_leg(chk, repo):
+    from checks import c20_init
+    return c20_init.initialisers_leg(chk, repo, qt_cflags())
+
+
 # ---- edited copies of the tree: more "programs" for the model <-> generator correspondence -----------
 def edit_tree(top, rng, n):
     """apply a few random edits below <top>/src/qtlogger; returns a description"""
@@ -1400,7 +1417,7 @@ def run():
     checked += 1 if multi_include_leg(chk, repo) else 0
     checked += layout_leg(chk, repo)
     # the two expensive legs run side by side (8 compiler processes + make -j8)
-    with concurrent.futures.ThreadPoolExecutor(max_workers=5) as ex2:
+    with concurrent.futures.ThreadPoolExecutor(max_workers=7) as ex2:
         f_t = ex2.submit(two_tu_leg, chk, repo)
         f_c = ex2.submit(configuration_leg, chk, repo, thorough)
         try:        # one make invocation for every harness of the two behaviour legs (they report a failing build themselves)
@@ -1410,7 +1427,9 @@ def run():
         f_b = ex2.submit(behaviour_leg, chk)
         f_p = ex2.submit(process_leg, chk)
         f_k = ex2.submit(conditional_leg, chk, repo)
-        checked += f_b.result() + f_t.result() + f_p.result() + f_k.result()
+        f_d = ex2.submit(declarations_leg, chk, repo)
+        f_i = ex2.submit(initialisers_leg, chk, repo)
+        checked += f_b.result() + f_t.result() + f_p.result() + f_k.result() + f_d.result() + f_i.result()
         n_cfg = f_c.result()
     checked += n_cfg
     if thorough:
